@@ -58,6 +58,8 @@ func c11Fixed(fields []string) map[string]string {
 		"/fx/ext.jet":     `{{ extends "/fx/layout.jet" }}{{ block body() }}ext-body {{ g_read }}{{ end }}`,
 		"/fx/layout.jet":  `<layout>{{ block body() }}default{{ end }}</layout>`,
 		"/fx/fail.jet":    `before{{ range xs }}{{ .NoField }}{{ end }}after`,
+		// ranges that find nothing (else branch) next to ranges over the same kinds that do
+		"/fx/emptyrange.jet": `{{ range xs0 }}x{{ else }}no-xs{{ end }}{{ range k, v := m0 }}{{ k }}{{ else }}no-m{{ end }}{{ range i, v := xs }}{{ i }}={{ v }};{{ end }}{{ range k, v := m1 }}{{ k }}:{{ v }};{{ end }}{{ range xs0 }}x{{ else }}{{ range xs }}{{ . }}{{ end }}{{ end }}`,
 		// try inside try inside try, each with output of its own that depends on the data
 		"/fx/trynest.jet":  `{{ try }}A{{ .U.Name }}{{ try }}B{{ range xs }}{{ . }}{{ end }}{{ try }}C{{ .U.Name }}{{ .U.NoField }}{{ catch }}c{{ end }}{{ .U.Name }}{{ end }}{{ try }}{{ noSuchThing }}{{ catch e }}D{{ try }}E{{ .U.Name }}{{ end }}{{ end }}tail{{ .U.Name }}{{ end }}{{ try }}F{{ include "/fx/part.jet" .U }}{{ end }}`,
 		"/fx/tryblock.jet": `{{ import "/fx/lib.jet" }}{{ try }}{{ yield box(title=.U.Name) content }}{{ try }}in{{ .U.Name }}{{ end }}{{ end }}{{ end }}{{ try }}{{ range i := ints(0, 3) }}{{ try }}{{ i }}{{ if i == 1 }}{{ .U.NoField }}{{ end }}ok{{ catch }}!{{ end }}{{ end }}{{ end }}`,
@@ -141,6 +143,12 @@ func c11Build(c c11Case, structType reflect.Type) *c11World {
 		s.AddGlobalFunc(k, f)
 	}
 	s.AddGlobalFunc("rtprobe", func(a jet.Arguments) reflect.Value { return reflect.Value{} })
+	s.AddGlobalFunc("publish", func(a jet.Arguments) reflect.Value {
+		a.Runtime().LetGlobal("pub", "P")
+		return reflect.Value{}
+	})
+	s.AddGlobal("xs0", []int{})
+	s.AddGlobal("m0", map[string]int{})
 	for k, r := range c.Prog.Vars {
 		s.AddGlobal(k, mj.Build(r))
 	}
